@@ -87,6 +87,9 @@ pub struct StreamSpec {
     pub delay: u8,
     /// park before opening (woken by Wake(n)) – used for probes at quiescence
     pub park: Option<u8>,
+    /// the request is cancelled (its future dropped, as a caller with a timeout does) when Wake(n) fires before it completed
+    #[serde(default)]
+    pub cancel: Option<u8>,
     /// [opener end, acceptor end]
     pub ends: [EndScript; 2],
 }
